@@ -492,6 +492,10 @@ def auto_discharge(s):
         ip = ir.place_str(idx)
         if index_below_len(ip, bp, s.facts):
             return "index %s is below %s.len() on this path" % (ip, bp)
+        # map[key] under map.contains_key(key) (no mutation of the map can sit between a dominating fact and the use of a shared borrow)
+        if ("HashMap<" in bta or "BTreeMap<" in bta) and any(f[0] == "pred" and f[1] == bp and f[2] == "contains_key" and f[3] == ip and f[4] for f in s.facts):
+            if not _mutated_between(s, bp):
+                return "dominated by %s.contains_key(%s)" % (bp, ip)
         return None
     if s.kind == "div":
         r = n["r"] if n.get("k") in ("bin", "assignop") else n["a"][0]
@@ -525,6 +529,27 @@ def auto_discharge(s):
             return "constant index %d under a guard implying %s has more elements" % (iv, bp)
         return None
     return None
+
+
+
+def _mutated_between(s, place):
+    """is `place` written (insert/remove/clear/retain/&mut use) in the site's function before the site?  Conservative: any such
+    call anywhere in the body that precedes the site in source order counts."""
+    body = None
+    for p_ in s.parents:
+        body = p_
+        break
+    if body is None:
+        return True
+    seen_site = [False]
+    bad = [False]
+    for y in ir.walk_nodes(body):
+        if y is s.node:
+            seen_site[0] = True
+            break
+        if y.get("k") == "mcall" and ir.place_str(y["recv"]) == place and y.get("name") in ("insert", "remove", "clear", "retain", "drain", "entry", "get_mut", "iter_mut", "values_mut", "remove_entry", "pop_first", "pop_last", "extend", "append"):
+            bad[0] = True
+    return bad[0]
 
 
 def _const_range(idx):
